@@ -22,6 +22,107 @@ def detrun(lib, paths, fresh, every=1, hash_out=None):
     return pipe_gz_to(cmd, paths)
 
 
+class _Hist:
+    """builds a history with the abstract ids the replay machine assigns (smallest free id)"""
+
+    def __init__(self):
+        self.ops, self.live, self.alias = [], set(), {}
+
+    def _new(self):
+        i = 1
+        while i in self.live:
+            i += 1
+        self.live.add(i)
+        return i
+
+    def op(self, name, n1=0, n2=0, s1="-", s2="-"):
+        self.ops.append([name, n1, n2, s1, s2])
+
+    def register(self, p):
+        self.op("register", 0, 0, p)
+
+    def instantiate(self, p):
+        self.op("instantiate", 0, 0, p)
+        return self._new()
+
+    def imp(self, name, kind="fA"):
+        self.op("import", 0, 0, name, kind)
+        return self._new()
+
+    def define(self, name, t):
+        self.op("define_type", 0, 0, name, t)
+        return self._new()
+
+    def alias_of(self, n, e):
+        self.op("alias", n, 0, e)
+        if (n, e) not in self.alias:
+            self.alias[(n, e)] = self._new()
+        return self.alias[(n, e)]
+
+    def export(self, n, name):
+        self.op("export", n, 0, name)
+
+    def remove(self, dead):
+        self.op("remove", dead[0])
+        self.live -= set(dead)
+        self.alias = {k: v for k, v in self.alias.items() if v not in dead and k[0] not in dead}
+
+
+def directed_histories():
+    import itertools
+    out = []
+    # an instance with three aliases (some exported) is removed, then the slots are reused
+    for order in itertools.permutations(["o1", "o2", "o3"]):
+        for exported in ([], [0], [0, 1], [0, 1, 2]):
+            h = _Hist()
+            h.register("pm")
+            keep = h.instantiate("pm")
+            k4 = h.alias_of(keep, "o4")
+            h.export(k4, "e4")
+            i = h.instantiate("pm")
+            als = [h.alias_of(i, e) for e in order]
+            for j in exported:
+                h.export(als[j], f"e{j + 1}")
+            h.remove([i] + als)
+            new = [h.imp("k1"), h.imp("k2"), h.instantiate("pm"), h.imp("k3")]
+            for j, n in enumerate(new[:3]):
+                if f"e{j + 1}" not in [f"e{x + 1}" for x in []]:
+                    h.export(n, f"e{j + 1}")
+            out.append(h.ops)
+    # two instances, all four aliases exported, one instance removed: the surviving exports keep their order
+    for which in (0, 1):
+        for order in itertools.permutations([("o1", "e1"), ("o2", "e2"), ("o3", "e3"), ("o4", "e4")]):
+            h = _Hist()
+            h.register("pm")
+            a, b = h.instantiate("pm"), h.instantiate("pm")
+            owner = {0: a, 1: a, 2: b, 3: b}
+            als = []
+            for j, (o, e) in enumerate(order):
+                n = h.alias_of(owner[j], o)
+                h.export(n, e)
+                als.append(n)
+            dead = a if which == 0 else b
+            h.remove([dead] + [als[j] for j in range(4) if owner[j] == dead])
+            h.imp("k1")
+            h.imp("k2")
+            h.imp("k3")
+            out.append(h.ops)
+    # a base type with several dependants is removed, then new definitions reuse the slots
+    for order in itertools.permutations([("t2", "td"), ("t3", "tx")]):
+        h = _Hist()
+        b = h.define("t1", "tb")
+        deps = [h.define(n, t) for n, t in order]
+        c = h.define("t4", "tc")
+        h.remove([b] + deps + [c])
+        h.define("t1", "tb")
+        h.imp("k1")
+        h.define("t2", "tx")
+        h.imp("k2")
+        h.define("t3", "td")
+        out.append(h.ops)
+    return out
+
+
 def run_property(prop, tier, report):
     det_path, det_stats = artefacts(tier)
     build_harness()
@@ -47,6 +148,37 @@ def run_property(prop, tier, report):
     report.add_findings(f, "det-random-histories")
     engines["random_histories"] = s
     total_lines += s["lines"]
+    # 2b. histories in which one removal takes several dependants with it (in whatever order the
+    # implementation visits them) and the freed slots are then reused by new nodes
+    dhist = os.path.join(ddir, f"directed-{tier}.txt")
+    with open(dhist, "w") as fh:
+        for h in directed_histories():
+            fh.write(json.dumps({"hist": h}) + "\n")
+    f, s = detrun("det", [dhist], fresh=12 if quick else 40)
+    report.add_findings(f, "det-directed-histories")
+    engines["directed_histories"] = s
+    total_lines += s["lines"]
+    # 2c. the front end: documents of the WAC evaluator's program space (spec/Wac.tla), with and without
+    # a `targets` clause, resolved and encoded repeatedly in one process and in several processes --
+    # same diagnostic (text and labels) or same bytes
+    from . import wac as wacmod
+    wpath, _ = wacmod.artefacts("quick")
+    wd = []
+    for k in range(2 if quick else 4):
+        f2, s2 = pipe_gz_to([hbin("wacreplay"), "--data", os.path.join(HARNESS, "data"), "--prop", "C16",
+                             "--every", "23" if quick else "5"], [wpath], timeout=7200)
+        report.add_findings([x for x in f2 if x.get("class") == "nondet"], "det-documents")
+        wd.append([(x["doc"], x["digest"]) for x in f2 if "digest" in x])
+    bad = 0
+    for k in range(1, len(wd)):
+        for a, b in zip(wd[0], wd[k]):
+            if a != b:
+                bad += 1
+                if bad <= 5:
+                    report.add_findings([{"class": "nondet", "what": "a document's outcome differs between two processes",
+                                          "process_0": str(a), f"process_{k}": str(b)}], "det-documents")
+    engines["documents"] = {"documents": len(wd[0]), "processes": len(wd), "mismatches": bad}
+    total_lines += len(wd[0])
     # 3. every state of the graph models (sampled in the quick tier)
     for lib in ["core", "ver", "shape"]:
         cfg = graph.MODELS[(lib, tier)]
